@@ -78,16 +78,39 @@ pub fn dispatch<S: Src>(name: &str, s: &mut S) -> bool {
 #[cfg(kani)]
 mod proofs {
     use super::*;
+    // Unicode-table predicates of `char` are beyond CBMC's budget (a symbolic char through
+    // the skip-search tables does not finish in 30 min). If an edit makes the map call them,
+    // they are over-approximated by an arbitrary bool: a failure found this way is only
+    // reported when the native replay reproduces it on the real code.
+    fn any_bool_of_char(_c: char) -> bool { kani::any() }
     #[kani::proof]
+    #[kani::stub(char::is_alphanumeric, any_bool_of_char)]
+    #[kani::stub(char::is_alphabetic, any_bool_of_char)]
+    #[kani::stub(char::is_numeric, any_bool_of_char)]
     fn alias_char_is_legal() { super::alias_char_is_legal(&mut KaniSrc) }
     #[kani::proof]
+    #[kani::stub(char::is_alphanumeric, any_bool_of_char)]
+    #[kani::stub(char::is_alphabetic, any_bool_of_char)]
+    #[kani::stub(char::is_numeric, any_bool_of_char)]
     fn alias_char_injective_outside_nonword() { super::alias_char_injective_outside_nonword(&mut KaniSrc) }
     #[kani::proof]
+    #[kani::stub(char::is_alphanumeric, any_bool_of_char)]
+    #[kani::stub(char::is_alphabetic, any_bool_of_char)]
+    #[kani::stub(char::is_numeric, any_bool_of_char)]
     fn alias_char_injective_on_nonword() { super::alias_char_injective_on_nonword(&mut KaniSrc) }
     #[kani::proof]
+    #[kani::stub(char::is_alphanumeric, any_bool_of_char)]
+    #[kani::stub(char::is_alphabetic, any_bool_of_char)]
+    #[kani::stub(char::is_numeric, any_bool_of_char)]
     fn alias_char_agrees_with_runtime_bmp() { super::alias_char_agrees_with_runtime_bmp(&mut KaniSrc) }
     #[kani::proof]
+    #[kani::stub(char::is_alphanumeric, any_bool_of_char)]
+    #[kani::stub(char::is_alphabetic, any_bool_of_char)]
+    #[kani::stub(char::is_numeric, any_bool_of_char)]
     fn alias_char_agrees_with_runtime_non_bmp() { super::alias_char_agrees_with_runtime_non_bmp(&mut KaniSrc) }
     #[kani::proof]
+    #[kani::stub(char::is_alphanumeric, any_bool_of_char)]
+    #[kani::stub(char::is_alphabetic, any_bool_of_char)]
+    #[kani::stub(char::is_numeric, any_bool_of_char)]
     fn canary_alias() { super::canary_alias(&mut KaniSrc) }
 }
